@@ -1,7 +1,8 @@
 // c07: a selector walk visits exactly what the selector denotes.
 // Record: id, "c07", selector, root, blocks, observation
-//   observation: "compile:<err|panic>" or  A<trace>#M<trace>  — the full WalkAdv trace (path, reason, last
-//   block link, node dump; storage reads) and the WalkMatching trace of the same selector and graph.
+//
+//	observation: "compile:<err|panic>" or  A<trace>#M<trace>  — the full WalkAdv trace (path, reason, last
+//	block link, node dump; storage reads) and the WalkMatching trace of the same selector and graph.
 package main
 
 import (
@@ -51,16 +52,13 @@ func corpus(out *lib.Out) {
 	none := lib.SelNoLimit
 	deep := lib.List(lib.List(lib.List(lib.List(lib.List(lib.List(lib.List(lib.Int(1))))))))
 	xa := lib.Map(lib.Entry{K: "x", V: lib.Map(lib.Entry{K: "a", V: lib.Map(lib.Entry{K: "a", V: lib.Int(1)})})})
+	_ = xa
+	for i, tc := range lib.TravWitnesses() {
+		runCase(out, fmt.Sprintf("k%d", i), tc)
+	}
 	cases := []struct {
 		sel, root *lib.Val
 	}{
-		// witnesses of the findings
-		{lib.SelUnion(lib.SelIndex(1, M()), lib.SelRange(0, 3, M())), ints(10, 11, 12)},
-		{lib.SelRec(1, A(lib.SelUnion(E(), lib.SelFields(lib.Entry{K: "a", V: E()}))), ""), xa},
-		{lib.SelRec(1, A(E()), ""), xa},
-		{lib.SelRec(none, lib.SelUnion(E(), A(E())), ""), lib.List(ints(1), ints(2))},
-		{lib.SelRec(3, lib.SelUnion(A(E()), A(A(E()))), ""), deep},
-		{lib.SelRec(3, A(A(E())), ""), deep},
 		{lib.SelRec(3, A(E()), ""), deep},
 		// neighbours that must be fine
 		{lib.SelUnion(lib.SelIndex(1, M()), lib.SelRange(2, 3, M())), ints(10, 11, 12)},
@@ -88,7 +86,7 @@ func corpus(out *lib.Out) {
 		{lib.SelIndex(0, M()), lib.Map(lib.Entry{K: "0", V: lib.Int(1)})},
 	}
 	for i, c := range cases {
-		runCase(out, fmt.Sprintf("k%d", i), &lib.TravCase{Sel: c.sel, Root: c.root})
+		runCase(out, fmt.Sprintf("k%d", 10+i), &lib.TravCase{Sel: c.sel, Root: c.root})
 	}
 }
 
@@ -97,6 +95,9 @@ func main() {
 	out := lib.OpenOut(fl.Out)
 	defer out.Close()
 	if fl.Replay != "" {
+		for i, tc := range lib.TravWitnesses() {
+			runCase(out, fmt.Sprintf("k%d", i), tc)
+		}
 		for _, line := range lib.ReadLines(fl.Replay) {
 			f := strings.Split(line, "\t")
 			if len(f) < 6 || f[1] != "c07" {
